@@ -7,6 +7,7 @@ import Proofs.Lemmas.BeaconBlockCompose
 import Proofs.Lemmas.BeaconBlockSteps
 import Proofs.Lemmas.BeaconBlockFrames
 import Proofs.Lemmas.BeaconBlockP0
+import Proofs.Lemmas.BeaconBlockP0Att
 import Proofs.Properties.C02
 /-!
 # C01 — block state transition equals the consensus spec for every valid block
@@ -59,7 +60,8 @@ total active balance and proposer stay the specification's while the state chang
 initiation, i.e. exits and slashings). That is what keeps `M_block_refines_S` a `_partial`: see
 `M_block_refines_S_partial`. For phase0 blocks WITHOUT operations the premise is discharged completely:
 `processBlock_noOps_eq`; for phase0 blocks whose only operations are voluntary exits: `processBlock_exits_eq`; and for phase0 blocks of proposer
-slashings, attester slashings and exits: `processBlock_slashExit_eq`.
+slashings, attester slashings and exits: `processBlock_slashExit_eq`; for phase0 blocks of attestations:
+`processBlock_attestations_eq`. (Not yet merged into ONE phase0 invariant; deposits and the later forks are open.)
 Each `M` piece is additionally tied to the Go function it models by mode `c01pieces`
 (ZigZagJoin, IsSlashableAttestationData, GetExpectedWithdrawals, InitiateValidatorExit,
 ValidateIndexedAttestationIndicesSet are driven directly with generated inputs).
@@ -68,7 +70,7 @@ namespace Zrnt.Proofs.C01
 open Zrnt Zrnt.Beacon Zrnt.Beacon.Spec Zrnt.Beacon.BlockImpl Zrnt.Proofs.BeaconBlock
 open Zrnt.Beacon.BlockM (Ctx processHeader processRandaoReveal processEth1Vote processBLSToExecutionChange processExecutionPayload processVoluntaryExit processDeposit
   processAttestationPhase0 processAttestationAltair slashValidator processProposerSlashing processAttesterSlashing processBlock postSlotTransition)
-open Zrnt.Proofs.BlockM (RegU64 ExitSmall PubkeyOK SameDuties SlashSmall SlashInv OpSteps Sim Refines Safe NoOps SameCommittees OnlyExits ExitInv P0Inv P0Const SlashExitBlock)
+open Zrnt.Proofs.BlockM (RegU64 ExitSmall PubkeyOK SameDuties SlashSmall SlashInv OpSteps Sim Refines Safe NoOps SameCommittees OnlyExits ExitInv P0Inv P0Const SlashExitBlock AttInv OnlyAttestations)
 
 /-- (a) `common.ValidatorSet.ZigZagJoin`, called on two strictly increasing index lists (what
 `ValidateIndexedAttestation` has established), calls `onIn` with exactly the spec's
@@ -614,5 +616,22 @@ theorem processBlock_slashExit_eq (cfg : Config) (S0 : State) (p Bm C k : Nat) (
     Sim (Block.process_block cfg S0 block) (processBlock cfg ctx S0 block) ∧
     ∀ st', processBlock cfg ctx S0 block = .ok st' → ∃ ctx', P0Inv cfg S0 p Bm C k ctx' st' :=
   BlockM.processBlock_slashExit cfg S0 p Bm C k K ctx block hb hi htyped
+
+/-- … and for phase0 blocks whose only operations are attestations, any number of them (`OnlyAttestations`): window,
+committee index, committee and bit list, source checkpoint, pending-list limit, indexed form and signature, and the
+appended pending attestation. `AttInv`: the context's proposer, committee counts and committees are the
+specification's for the attestable epochs (C07), committees are duplicate-free; carried through header, RANDAO mix-in
+(which needs `(MIN_SEED_LOOKAHEAD + 2) mod EPOCHS_PER_HISTORICAL_VECTOR ≠ 0` for the previous epoch's attester seed),
+eth1 vote and every attestation. -/
+theorem processBlock_attestations_eq (cfg : Config) (ctx : Ctx) (st : State) (block : SignedBlock) (p : Nat)
+    (hno : OnlyAttestations cfg block) (hi : AttInv cfg p ctx st)
+    (hspe : 0 < cfg.SLOTS_PER_EPOCH) (hmin : cfg.MIN_ATTESTATION_INCLUSION_DELAY ≤ cfg.SLOTS_PER_EPOCH)
+    (hpos : 0 < cfg.EPOCHS_PER_HISTORICAL_VECTOR)
+    (hlook : (cfg.MIN_SEED_LOOKAHEAD + 1) % cfg.EPOCHS_PER_HISTORICAL_VECTOR ≠ 0)
+    (hlook2 : (cfg.MIN_SEED_LOOKAHEAD + 2) % cfg.EPOCHS_PER_HISTORICAL_VECTOR ≠ 0)
+    (hsmall : cfg.EPOCHS_PER_ETH1_VOTING_PERIOD * cfg.SLOTS_PER_EPOCH * 2 + 2 < 2 ^ 64)
+    (htyped : Block.check_types cfg block = .ok ()) :
+    Sim (Block.process_block cfg st block) (processBlock cfg ctx st block) :=
+  BlockM.processBlock_attestations cfg ctx st block p hno hi hspe hmin hpos hlook hlook2 hsmall htyped
 
 end Zrnt.Proofs.C01
